@@ -4,6 +4,9 @@ from vk.core import Inst
 MK_MSA_UNWIND = [("vk_mk_msa", r"i < 128", 129)]
 
 
+BPM_UNWIND = [("bpm_block", r"b <= y", 2), ("bpm_block", r"while \(score\[y\]", 2), ("bpm_block", r"block < b_max", 2), ("bpm_block", r"int c = 0; c < SIGMA", 14)]
+
+
 def weave_instances(tier, ob, prefix):
     out = []
     if tier == "quick":
